@@ -39,6 +39,13 @@ def _apply(variant, dst) -> str:
                 if f.endswith(".py"):
                     n += ar.rename_file(os.path.join(root, f))
         return "ok" if n > 1000 else "stale"
+    if variant.get("astmode"):
+        # syntax-tree rewrites of the whole package (tools/ast_variants.py): inverted if/else, swapped factors; behaviour preserving
+        import importlib.util
+        spec = importlib.util.spec_from_file_location("ast_variants", os.path.join(core.VERIF, "tools", "ast_variants.py"))
+        av = importlib.util.module_from_spec(spec)
+        spec.loader.exec_module(av)
+        return "ok" if av.apply(dst, variant["astmode"]) > 20 else "stale"
     if variant.get("hoist"):
         # call arguments moved into fresh temporaries throughout the package (tools/hoist_temps.py): behaviour preserving
         import importlib.util
@@ -242,6 +249,8 @@ def run(prop: str, subset=None) -> Dict:
         # the whole package with every local variable renamed: no verdict may depend on how a local is called
         vs.append({"id": f"{prop}-auto-alpha", "kind": "preserve", "alpha": True, "file": "(all)", "rule": None})
         vs.append({"id": f"{prop}-auto-hoist", "kind": "preserve", "hoist": True, "file": "(all)", "rule": None})
+        vs.append({"id": f"{prop}-auto-invert-if", "kind": "preserve", "astmode": "invert-if", "file": "(all)", "rule": None})
+        vs.append({"id": f"{prop}-auto-swap-mul", "kind": "preserve", "astmode": "swap-mul", "file": "(all)", "rule": None})
     if not vs:
         return {"variants": 0, "results": [], "ok": True, "problems": []}
     from multiprocessing import Pool
